@@ -34,6 +34,9 @@ func (g *gen) havocAllHeap(reason string) {
 	}
 	sort.Strings(ks)
 	for _, k := range ks {
+		if strings.HasPrefix(k, "LOG|") || strings.HasPrefix(k, "G|") || strings.HasPrefix(k, "RG|") {
+			continue // ghost state is only changed by contracts
+		}
 		g.heapHavoc(k)
 	}
 	if g.curBlock != nil {
